@@ -5,17 +5,12 @@ fn to_f64(&self) -> Approximation<f64, Sign>
         self.denominator.v() > 0,                                          // invariant of Repr
         // isize arithmetic on the bit lengths (overflow of isize is outside this contract)
         blen(self.numerator.v()) < isize::MAX / 2 - 64, blen(self.denominator.v()) < isize::MAX / 2 - 64,
-        // KNOWN FINDING 1 (genuine defect, see report): double rounding.  The quotient (53 or 54 bits) is rounded to an
+        // KNOWN FINDING (genuine defect, see report): double rounding.  The quotient (53 or 54 bits) is rounded to an
         // integer and `encode` rounds that integer AGAIN when it does not fit 53 bits / falls in the subnormal range:
         // RBig (7 * (2^53 + 1) + 3)/7 = 2^53 + 1.43 -> 2^53, correct: 2^53 + 2.
         // Region excluded: non-zero remainder AND rounded quotient * 2^shift not representable.
-        !(-1074 - 53 <= rq_shift(self.numerator.v(), self.denominator.v(), 52) < 1024
+        !(-1074 - 54 <= rq_shift(self.numerator.v(), self.denominator.v(), 52) < 1024
             && ratio_double_rounding(fmt64(), self.numerator.v(), self.denominator.v())),
-        // KNOWN FINDING 2 (genuine defect, see report): the flush-to-zero bound `shift < -1074 - 53` is one too high (the
-        // quotient has up to 54 bits; to_f32 uses -149 - 25): RBig 3/2^1076 = 0.75 * 2^-1074 -> Inexact(0.0, Negative),
-        // correct: Inexact(5e-324, Positive).  Region excluded: shift == -1128 and quotient > 2^53 (value > 2^-1075).
-        !(rq_shift(self.numerator.v(), self.denominator.v(), 52) == -1074 - 54
-            && rq_n(self.numerator.v(), self.denominator.v(), 52) > pow2(53) * rq_d(self.numerator.v(), self.denominator.v(), 52)),
     ensures
         // C06: the correctly rounded (RNE) f32 of numerator/denominator, Exact iff nothing was lost, else the sign of
         // result - exact
@@ -65,12 +60,12 @@ fn to_f64(&self) -> Approximation<f64, Sign>
             } @*/
             // max f64 = 2^1024 × (1 − 2^−53)
             Inexact(sign * f64::INFINITY, sign)
-        } else if shift < -1074 - 53 {
+        } else if shift < -1074 - 54 {
             /*@ proof {
-                // shift <= -1129: quotient < 2^54; shift == -1128: quotient <= 2^53 (the rest is KNOWN FINDING 2)
-                if e == -1074 - 54 { lemma_underflow_from_quot(fmt64(), neg, xn, xd, e, 53); } else { lemma_underflow_from_quot(fmt64(), neg, xn, xd, e, 54); }
+                // shift <= -1129 and quotient < 2^54: x < 2^-1075
+                lemma_underflow_from_quot(fmt64(), neg, xn, xd, e, 54);
             } @*/
-            // min f64 = 2^-1074, quotient has at most 53 bits
+            // min f64 = 2^-1074, quotient has at most 54 bits
             Inexact(sign * 0f64, -sign)
         } else {
             /*@ proof { lemma_rq_man(gn, gd); } @*/
@@ -99,7 +94,7 @@ fn to_f64(&self) -> Approximation<f64, Sign>
                 f64::encode(sign * man as i64, shift as i16))
         }
         /*@ proof {
-            if -1074 - 53 <= e < 1024 {
+            if -1074 - 54 <= e < 1024 {
                 lemma_rq_man(gn, gd);
                 let a = rq_man(gn, gd);
                 let fr = fields64(ap_val(ret));
